@@ -30,7 +30,6 @@ SPEC = dict(
            "SquidConfig Config is the real global, zero-initialised, relaxed_header_parser set by the harness",
            "compat/xstring.cc is the real file with its xstrdup renamed away (xstrdup is an engine model)",
            "libc strtoll/strspn/strcspn/isspace/snprintf models (glibc semantics, C locale)", "debugs() disabled"],
-    assumptions=["excluded as KNOWN-FINDING candidate: Content-Length lists with an element made only of whitespace containing VT/FF (strListGetItem ends the list there; later elements are not examined)"],
     outside="values and field lists longer than the listed families; LF inside the symbolic bytes (line structure is C25); Transfer-Encoding overriding Content-Length and the "
             "1xx/204/trailer rules (prohibitedAndIgnored); how callers act on conflictingContentLength() (HttpRequest::checkEntityFraming, HttpStateData) is read off, not executed",
 )
